@@ -1550,23 +1550,35 @@ void ExpandLineTokens(as_dynstr_t* p_str, tTokenTextFnc GetText, void* pUser) {
     }
 }
 
-void KillCtrl(char* Line) {
-    char* z;
+void KillCtrl(as_dynstr_t* p_line) {
+    size_t z = 0;
 
-    if (*(z = Line) == '\0') {
+    if (p_line->p_str[0] == '\0') {
         return;
     }
     do {
-        if (*z == '\0')
+        char* Line = p_line->p_str;
+
+        if (Line[z] == '\0')
             ;
-        else if (*z == Char_HT) {
-            strmov(z, z + 1);
-            strprep(z, Blanks(8 - ((z - Line) % 8)));
-        } else if ((*z & 0xe0) == 0) {
-            *z = ' ';
+        else if (Line[z] == Char_HT) {
+            size_t NumBlanks = 8 - (z % 8), Needed = strlen(Line) + NumBlanks;
+
+            /* a tabulator becomes up to eight blanks: make room first */
+
+            if (Needed > p_line->capacity) {
+                if (as_dynstr_realloc(p_line, as_dynstr_roundup_len(Needed))) {
+                    return;
+                }
+                Line = p_line->p_str;
+            }
+            strmov(Line + z, Line + z + 1);
+            strprep(Line + z, Blanks(NumBlanks));
+        } else if ((Line[z] & 0xe0) == 0) {
+            Line[z] = ' ';
         }
         z++;
-    } while (*z != '\0');
+    } while (p_line->p_str[z] != '\0');
 }
 
 /****************************************************************************/
